@@ -10,6 +10,7 @@ pub mod libeval;
 pub mod refchain;
 pub mod refdl;
 pub mod rng;
+pub mod validate;
 pub mod sweep;
 pub mod verifier;
 pub mod versions;
@@ -61,6 +62,38 @@ fn main() {
             let runs = arg(&args, "--runs").and_then(|s| s.parse::<usize>().ok());
             check(&property, &tier, seed, threads, runs, &verif_dir)
         }
+        "validate-models" => validate::validate(&std::env::var("REPO_DIR").unwrap_or_else(|_| "/repo".to_string())),
+        "digest" => {
+            // one line per run: run seed and digest of everything that happened in it
+            let property = arg(&args, "--property").expect("--property");
+            let seed = arg(&args, "--seed").and_then(|s| s.parse::<u64>().ok()).unwrap_or(driver::DEFAULT_SEED);
+            let threads = arg(&args, "--threads").and_then(|s| s.parse().ok()).unwrap_or(16usize);
+            let runs = arg(&args, "--runs").and_then(|s| s.parse::<usize>().ok()).unwrap_or(500);
+            for (s, d) in digests(&property, seed, runs, threads) {
+                println!("{property} {s} {d:016x}");
+            }
+            0
+        }
+        "determinism" => {
+            // in-process part of the determinism proof: every engine, twice, at 1 and 16 workers
+            let runs = arg(&args, "--runs").and_then(|s| s.parse::<usize>().ok()).unwrap_or(300);
+            let seed = arg(&args, "--seed").and_then(|s| s.parse::<u64>().ok()).unwrap_or(driver::DEFAULT_SEED);
+            let mut bad = 0;
+            for p in ALL_PROPERTIES {
+                let a = digests(p, seed, runs, 16);
+                let b = digests(p, seed, runs, 1);
+                let c = digests(p, seed, runs, 5);
+                let diff = a.iter().zip(b.iter()).zip(c.iter()).filter(|((x, y), z)| x != y || y != z).count();
+                println!("determinism: property={p} runs={runs} x3 (16, 1 and 5 workers) differing={diff}");
+                bad += diff;
+            }
+            if bad > 0 {
+                eprintln!("HARNESS: the simulator is not deterministic: {bad} runs differ");
+                2
+            } else {
+                0
+            }
+        }
         "replay" => {
             let path = args.get(2).expect("replay <file>");
             replay(path, &verif_dir)
@@ -71,6 +104,16 @@ fn main() {
         }
     };
     std::process::exit(code);
+}
+
+const ALL_PROPERTIES: &[&str] = &["C01", "C02", "C03", "C04", "C05", "C07", "C08", "C10", "C11", "C12", "C13", "C15", "C16"];
+
+fn digests(property: &str, seed: u64, runs: usize, threads: usize) -> Vec<(u64, u64)> {
+    match property {
+        "C05" => driver::digests(&dlengine::DlEngine, seed, runs, threads),
+        "C10" => driver::digests(&budget::BudgetEngine, seed, runs, threads),
+        p => driver::digests(&worldengine::WorldEngine::new(p), seed, runs, threads),
+    }
 }
 
 fn check(property: &str, tier: &str, seed: u64, threads: usize, runs: Option<usize>, verif_dir: &str) -> i32 {
